@@ -341,6 +341,30 @@ func c18Misc(w *run.Worker) {
 		func() []*rt.Node { return []*rt.Node{rt.If(rt.Bool(false), rt.Block(rt.Assign("=", Id("inner"), I(1)))), rt.Call("p", Id("inner"))} },
 		func() []*rt.Node { return []*rt.Node{rt.For(rt.Assign("=", Id("i"), I(0)), rt.Bin("<", Id("i"), I(1)), rt.Assign("+=", Id("i"), I(1)), rt.Block()), rt.Call("p", Id("i"))} },
 	}
+	// a name first assigned in a loop body is gone in the next pass — however the previous pass ended
+	// (falling off the end, continue, continue inside an if) and whatever is iterated
+	for _, iter := range []func() *rt.Node{
+		func() *rt.Node { return rt.List(I(1), I(2), I(3)) }, func() *rt.Node { return rt.Str("abc") }, func() *rt.Node { return rt.Map(rt.Str("k1"), I(1), rt.Str("k2"), I(2)) },
+	} {
+		for _, ending := range []func() []*rt.Node{
+			func() []*rt.Node { return nil },
+			func() []*rt.Node { return []*rt.Node{rt.Continue()} },
+			func() []*rt.Node { return []*rt.Node{rt.If(rt.Bool(true), rt.Block(rt.Continue()))} },
+			func() []*rt.Node { return []*rt.Node{rt.If(rt.Bool(false), rt.Block(), rt.Block(rt.Continue())), rt.Call("p", I(5))} },
+		} {
+			iter, ending := iter, ending
+			forms = append(forms, func() []*rt.Node {
+				body := []*rt.Node{rt.Assign("=", Id("n"), rt.Bin("+", Id("n"), I(1))), rt.If(rt.Bin(">", Id("n"), I(1)), rt.Block(rt.Call("p", Id("fresh")))), rt.Assign("=", Id("fresh"), Id("v"))}
+				body = append(body, ending()...)
+				return []*rt.Node{rt.Assign("=", Id("n"), I(0)), rt.ForIn("v", iter(), rt.Block(body...)), rt.Call("p", Id("n"))}
+			})
+			forms = append(forms, func() []*rt.Node {
+				body := []*rt.Node{rt.Assign("=", Id("n"), rt.Bin("+", Id("n"), I(1))), rt.If(rt.Bin(">", Id("n"), I(1)), rt.Block(rt.Call("p", Id("fresh")))), rt.Assign("=", Id("fresh"), Id("n"))}
+				body = append(body, ending()...)
+				return []*rt.Node{rt.Assign("=", Id("n"), I(0)), rt.For(nil, rt.Bin("<", Id("n"), I(3)), nil, rt.Block(body...)), rt.Call("p", Id("n"))}
+			})
+		}
+	}
 	for _, f := range forms {
 		if !w.Take() {
 			continue
